@@ -47,7 +47,10 @@ class C04(Property):
                   "and the response); the real writer is a double with net/http server semantics; Hijacker/Pusher pass-throughs "
                   "are outside the handler behaviours covered. Known finding C04-informational-status (1xx written first is "
                   "recorded as the status).")
-    rule = ("REST: scripts of 0..7 actions (header set/add/del, WriteHeader incl. invalid and 1xx codes, Write chunks, Flush, "
+    rule = ("FIRST, fixed: the engine's chain Timeout -> Recover -> work with invalid status codes 0/99/600/999/-1 as first / later "
+            "WriteHeader, after a Write, after the timeout, and the work's own panic, D at every place around panic, recovery "
+            "and return (rest with a gate between Recover and the timeout writer, sequences, real rest.Server with Recover on); "
+            "slow-client stalls (D inside the handler's Flush).  REST: scripts of 0..7 actions (header set/add/del, WriteHeader incl. invalid and 1xx codes, Write chunks, Flush, "
             "ctx check, panic) on a Flusher or non-Flusher writer, D = none | cancel | real timeout / parent deadline | race at "
             "EVERY script position, plus websocket/SSE/zero-timeout exemptions; sequences of 2-3 requests through ONE "
             "TimeoutHandler instance with the first handler abandoned at its timeout and released at every position of the "
@@ -66,7 +69,8 @@ class C04(Property):
         "atomicity of tw.mu-protected methods and channel operations (validated by the -race free-run, thorough tier)",
         "context.WithTimeout/WithCancel (stdlib) behave as min(parent, now+d) / sticky first error",
         "the REST real writer is a test double with net/http server semantics (first final WriteHeader/Write/Flush freezes status+headers; 1xx except 101 are informational)",
-        "tools/c04consts.py extracts constants / source shapes by regular expressions over gofmt'ed sources (fails loudly when a declaration is not found)",
+        "tools/c04consts.py extracts constants / source shapes by regular expressions over gofmt'ed sources; items whose shape is not recognised are established by experiment on the current tree (probe requests, lock probe, server probe); an item neither way establishes is a broken obligation",
+        "the RecoverHandler inside the timeout middleware is modelled as: recover, WriteHeader(500) on the timeout writer, return (Recover.v); a handler action that hangs on a mutex of rest/handler is an observation (SoWait), established from goroutine stacks sampled for 2 s",
         "httpx error handler left at its default (no httpx.SetErrorHandler)",
     ]
     assumptions = ["handler does not use http.Hijacker / Pusher (websocket upgrades, which do, are exempt)",
@@ -279,9 +283,29 @@ class C04(Property):
         res.append(dict(self._rest([["w", [200]], ["flush"], ["panic", 2]], [], "stall", 0, fl=True, rec=True), paths_done=True))
         return res
 
+    def _corpus_headers(self):
+        """the exemption test on a real rest.Server, one request per header variant (every run): the two literal
+        exemptions, spellings that canonicalise to them, near misses, multi-valued Accept, and headers that only
+        LOOK related (Connection: Upgrade without Upgrade: websocket, Accept: application/json): wrapped or not,
+        deadline = min(caller's, now + the route's timeout), cancelled after one action"""
+        (un, uv), (an, av) = self.consts["exempt"]
+        variants = [[], [[un, uv]], [[an, av]], [[un.lower(), uv]], [[an.upper(), av]], [[un, uv.capitalize()]],
+                    [[un, uv.upper()]], [[an, av + ", text/html"]], [[an, "text/html"], [an, av]],
+                    [[an, av], [an, "text/html"]], [[an, "application/json"], ["Connection", "Upgrade"]],
+                    [["Connection", "Upgrade"]], [["Connection", "keep-alive, Upgrade"], [un, "h2c"]],
+                    [[an, "*/*"]], [["Sec-WebSocket-Key", "x"], ["Connection", "Upgrade"]], [[un, uv], [an, av]]]
+        res = []
+        for j, hdrs in enumerate(variants):
+            q = {"group": j % 2, "route": 0, "hdrs": hdrs, "parent_ns": (None, 3 * HOUR)[j % 2], "fl": True, "h0": [],
+                 "deadline": False, "script": [["set", 1, 7], ["w", [200]], ["chk"], ["w", [201]]]}
+            res.append({"kind": "srv", "conf_ms": 60000, "mw_timeout": True, "mw_inner": False, "rec": j % 3 == 0,
+                        "groups": [{"opts": [["timeout", HOUR]], "n": 1}, {"opts": [], "n": 1}], "reqs": [q],
+                        "order": [["start", 0], ["H", 0], ["D", 0], ["H", 0], ["H", 0], ["H", 0], ["H", 0]], "procs": 0})
+        return res
+
     def corpus(self):
         s1 = [["set", 1, 7], ["wh", 201], ["w", [200, 201]], ["set", 2, 9], ["w", [202]]]
-        res = self._corpus_recover() + self._corpus_stall()
+        res = self._corpus_recover() + self._corpus_stall() + self._corpus_headers()
         for pos in range(0, 7):
             for mode in ("cancel", "deadline", "race"):
                 res.append(self._rest(s1, [[1, [5]]], mode, pos, yld=pos % 3))
